@@ -54,9 +54,14 @@ func (a *ConstFuncParamAnnotator) VisitFuncDecl(decl *ast.FuncDecl) ast.VisitRes
 	if ast.IsGeneric(decl) {
 		for _, instantiations := range decl.Generic.Instantiations {
 			for _, instantiation := range instantiations {
-				a.VisitFuncDecl(instantiation)
+				// the body of an instantiation is not part of the statements of any module,
+				// so it has to be visited here, otherwise all its parameters would stay const
+				if a.VisitFuncDecl(instantiation) == ast.VisitRecurse {
+					ast.VisitNode(a, instantiation.Body, nil)
+				}
 			}
 		}
+		a.currentDecl = nil
 		return ast.VisitRecurse
 	}
 
